@@ -906,6 +906,7 @@ type loopParts struct {
 	post     func()
 	autoInv  func() *T  // built-in invariant (range index bounds)
 	autoVar  func() *T  // default variant
+	scopePos token.Pos  // position used to resolve identifiers in invariants (inside the loop's own scope)
 	extraMod []string
 	bindIdx  func(sc *specCtx)
 }
@@ -915,7 +916,7 @@ func (ex *Exec) execLoop(lp *loopParts) {
 	label := ex.pendingLabel
 	ex.pendingLabel = ""
 	lname := fmt.Sprintf("loop%d", ls.n)
-	if ls.lc != nil && ls.lc.Hint != "" && !strings.Contains(normSpace(lp.text), normSpace(ls.lc.Hint)) {
+	if ls.lc != nil && ls.lc.Hint != "" && !strings.Contains(noSpace(lp.text), noSpace(ls.lc.Hint)) {
 		ex.drift = append(ex.drift, fmt.Sprintf("%s %s: text hint %q does not match loop %q", ex.name, lname, ls.lc.Hint, lp.text))
 	}
 	runIter := func(lf *loopFrame) {
@@ -952,8 +953,11 @@ func (ex *Exec) execLoop(lp *loopParts) {
 	entry := ex.st.clone()
 	ex.entryStack = append(ex.entryStack, entry)
 	defer func() { ex.entryStack = ex.entryStack[:len(ex.entryStack)-1] }()
+	if lp.scopePos == token.NoPos {
+		lp.scopePos = lp.pos
+	}
 	invs := func(kind string) {
-		sc := ex.specHere(lp.pos)
+		sc := ex.specHere(lp.scopePos)
 		sc.entry = entry
 		if lp.bindIdx != nil {
 			lp.bindIdx(sc)
@@ -1017,7 +1021,7 @@ func (ex *Exec) execLoop(lp *loopParts) {
 	}
 	variant := func() *T {
 		if ls.lc != nil && ls.lc.Decreases != nil {
-			sc := ex.specHere(lp.pos)
+			sc := ex.specHere(lp.scopePos)
 			sc.entry = entry
 			if lp.bindIdx != nil {
 				lp.bindIdx(sc)
@@ -1067,6 +1071,7 @@ func (ex *Exec) execLoop(lp *loopParts) {
 }
 
 func normSpace(s string) string { return strings.Join(strings.Fields(s), " ") }
+func noSpace(s string) string   { return strings.Join(strings.Fields(s), "") }
 
 func (ex *Exec) nodeText(n ast.Node) string {
 	return ex.prog.nodeSource(n)
@@ -1080,7 +1085,7 @@ func (ex *Exec) execFor(s *ast.ForStmt) {
 	if s.Cond != nil {
 		condText = exprString(s.Cond)
 	}
-	lp := &loopParts{pos: s.Pos(), text: condText, body: s.Body.List}
+	lp := &loopParts{pos: s.Pos(), text: condText, body: s.Body.List, scopePos: s.Body.Lbrace}
 	lp.cond = func() *T {
 		if s.Cond == nil {
 			return True
@@ -1136,7 +1141,7 @@ func (ex *Exec) execRange(s *ast.RangeStmt) {
 		return
 	}
 	ex.st.env[idxKey] = I(0)
-	lp := &loopParts{pos: s.Pos(), text: "range " + exprString(s.X), body: s.Body.List}
+	lp := &loopParts{pos: s.Pos(), text: "range " + exprString(s.X), body: s.Body.List, scopePos: s.Body.Lbrace}
 	lp.cond = func() *T { return Lt(ex.get(ex.st, idxKey), lenT) }
 	lp.autoInv = func() *T { i := ex.get(ex.st, idxKey); return And(Le(I(0), i), Le(i, lenT)) }
 	lp.autoVar = func() *T { return Sub(lenT, ex.get(ex.st, idxKey)) }
